@@ -1,19 +1,20 @@
 #!/venv/bin/python
 """run every registered check (quick by default) on /repo and validate the evidence files"""
-import json, subprocess, sys, time
+import json, subprocess, sys, time, os
+HERE = os.path.dirname(os.path.dirname(os.path.abspath(__file__)))
 tier = sys.argv[1] if len(sys.argv) > 1 else "quick"
-m = json.load(open("/verif/MANIFEST.json"))
+m = json.load(open(HERE + "/MANIFEST.json"))
 bad = 0
 for c in m["checks"]:
     cmd = c["quick_cmd"] if tier == "quick" else c["thorough_cmd"]
     t0 = time.time()
-    p = subprocess.run(cmd, shell=True, cwd="/verif", stdout=subprocess.PIPE, stderr=subprocess.STDOUT, text=True)
+    p = subprocess.run(cmd, shell=True, cwd=HERE, stdout=subprocess.PIPE, stderr=subprocess.STDOUT, text=True)
     lines = [l for l in p.stdout.split("\n") if l and "WARNING conda" not in l]
     print(c["property_id"], "rc=%d" % p.returncode, "%.0fs" % (time.time() - t0), "|", lines[-1][:160] if lines else "")
     for l in lines:
         if l.startswith(("VIOLATION", "KNOWN-FINDING")):
             print("    ", l[:200])
     bad += p.returncode != 0
-v = subprocess.run("python3-vt - <<'EOF2'\nimport json, jsonschema, glob\ns = json.load(open('/root/.vp/EVIDENCE.schema.json'))\nfor f in sorted(glob.glob('/verif/evidence/*.json')):\n    e = json.load(open(f)); jsonschema.validate(e, s)\n    assert e['coverage']['discharged'] == e['coverage']['obligations'] >= 1, f\nm = json.load(open('/verif/MANIFEST.json')); jsonschema.validate(m, json.load(open('/root/.vp/MANIFEST.schema.json')))\nprint('evidence + manifest valid')\nEOF2", shell=True, stdout=subprocess.PIPE, stderr=subprocess.STDOUT, text=True)
+v = subprocess.run("python3-vt - <<'EOF2'\nimport json, jsonschema, glob\ns = json.load(open('/root/.vp/EVIDENCE.schema.json'))\nfor f in sorted(glob.glob('%s/evidence/*.json')):\n    e = json.load(open(f)); jsonschema.validate(e, s)\n    assert e['coverage']['discharged'] == e['coverage']['obligations'] >= 1, f\nm = json.load(open('%s/MANIFEST.json')); jsonschema.validate(m, json.load(open('/root/.vp/MANIFEST.schema.json')))\nprint('evidence + manifest valid')\nEOF2" % (HERE, HERE), shell=True, stdout=subprocess.PIPE, stderr=subprocess.STDOUT, text=True)
 print(v.stdout[-600:])
 sys.exit(1 if bad else 0)
